@@ -20,6 +20,8 @@
   (tools/props/C01.py), evaluated on every case.
 -/
 import Mhd.Proofs.ConnMem
+import Mhd.Proofs.ConnRead
+import Mhd.Proofs.ConnReadSync
 import Mhd.Props.C02
 import Mhd.Props.C08
 
@@ -95,5 +97,126 @@ example : WindowsInside (run (init 1024 1024 64)
     [.recv 300, .consume 120, .shiftBack 4, .grow true, .alloc 40, .shrinkRead, .maxWrite, .wAppend 90,
      .wSend 90, .resetConn, .recv 10]) := by
   apply windows_inside_arena <;> simp [A, Mhd.Gen.Pool.alignSize, Op.Valid, W]
+
+/-! ## Composition: the request-receiving half of a connection on ONE arena (`Mhd.ConnRead`)
+
+`ConnRead` runs the buffer layer above and the request-head parsers of C02 on the same arena
+(`cm.p.mem`): received bytes are stored at `read_buffer + read_buffer_offset`, the idle loop runs
+`get_request_line` (`rlScanner`, `processRequestTarget`), `get_req_headers` (`hsStep`, incl. the
+shift-back) and `check_and_grow_read_buffer_space`; every change of the window is an operation
+of the buffer layer (`consume`, `alloc` per request element, `shiftBack`, `grow`, `errRelease`).
+A parser access outside the buffer it is given is the phase `fault`, an operation the buffer layer
+refuses is the phase `refused`.  The theorems below hold for every arena size, every pool
+size / increment, every strictness level and every list of chunks (every byte stream × every
+segmentation).  Stage 1 (this section): request line and header section, up to
+MHD_CONNECTION_HEADERS_RECEIVED. -/
+
+open Mhd.ConnRead in
+/-- **(1) no fault, no refused operation, windows inside the arena — for every client byte stream.**
+    The proof establishes, state by state, the precondition of the parser that runs next
+    (`RLInvX` for the request line, `RLPost` ⇒ `processRequestTarget_no_fault`, `HSP.Inv` at the
+    start of and during the header section) and that each operation the parsers trigger is
+    accepted by the buffer layer (`Mhd.ConnRead.Safe`). -/
+theorem connread_no_fault (allocSize poolSize inc : Nat) (lvl : Int) (ha : allocSize % A = 0)
+    (hs : allocSize < 2 ^ 62) (hp : poolSize ≤ allocSize) (chunks : List (List UInt8)) :
+    let x := Mhd.ConnRead.run (Mhd.ConnRead.init allocSize poolSize inc lvl) chunks
+    (∀ f, x.phase ≠ .fault f) ∧ (∀ n, x.phase ≠ .refused n) ∧ WindowsInside x.cm := by
+  intro x
+  have h := run_safe inc chunks _ (init_safe allocSize poolSize inc lvl ha hs hp)
+  exact ⟨(safe_not_faulty h).1, (safe_not_faulty h).2, Mhd.ConnMem.windows_of_inv _ (safe_cminv h)⟩
+
+open Mhd.ConnRead in
+/-- **(2) the bytes the parsers may touch.**  While the connection is reading, the buffer of the
+    parser state is exactly the arena prefix `[0, read_buffer + read_buffer_offset)`: it ends at the
+    end of the received data, inside the read window `[read_buffer, read_buffer + read_buffer_size)`,
+    which lies below `pos ≤ size`; the read block starts at the arena base (`rbBase = 0`).  The
+    parsers' accessors fault on every index `≥ buf.size` and by (1) no fault occurs, so every index
+    read or written by the parsers is `< read_buffer + read_buffer_offset ≤ size`. -/
+theorem connread_parser_view_inside (allocSize poolSize inc : Nat) (lvl : Int) (ha : allocSize % A = 0)
+    (hs : allocSize < 2 ^ 62) (hp : poolSize ≤ allocSize) (chunks : List (List UInt8)) :
+    let x := Mhd.ConnRead.run (Mhd.ConnRead.init allocSize poolSize inc lvl) chunks
+    x.reading = true →
+    ∃ r, x.cm.rb = some r ∧ x.cm.rbBase = 0 ∧ x.cm.rbOff ≤ x.cm.rbSize ∧ r + x.cm.rbSize ≤ x.cm.p.pos ∧
+      x.cm.p.pos ≤ x.cm.p.size ∧
+      (match x.phase with
+       | .reqLine s => s.rb = r ∧ s.buf.size = r + x.cm.rbOff
+       | .headers s _ => s.rb = r ∧ s.buf.size = r + x.cm.rbOff
+       | _ => True) := by
+  intro x hr
+  exact safe_view (run_safe inc chunks _ (init_safe allocSize poolSize inc lvl ha hs hp)) hr
+
+open Mhd.ConnRead in
+/-- **(3) never stuck with a full buffer.**  After every chunk, a connection that still waits for
+    data has free space in its read window: when the window is full and the parsers made no
+    progress, `check_and_grow_read_buffer_space` either really enlarged it or moved the connection
+    to the error phase (reply 413/414/431 + close).  Rests on the guard `if (0 == small_inc)
+    small_inc = 1` of `try_grow_read_buffer` (fix F32), whose presence is the regenerated behaviour
+    probe `Mhd.Gen.ConnMem.growMinOne`: without it the proof obligation fails
+    (see `grow_stuck_without_guard`). -/
+theorem connread_full_buffer_is_error (allocSize poolSize inc : Nat) (lvl : Int) (ha : allocSize % A = 0)
+    (hs : allocSize < 2 ^ 62) (hp : poolSize ≤ allocSize) (hp2 : 2 ≤ poolSize)
+    (chunks : List (List UInt8)) :
+    let x := Mhd.ConnRead.run (Mhd.ConnRead.init allocSize poolSize inc lvl) chunks
+    x.reading = true → x.cm.rbOff < x.cm.rbSize := by
+  intro x
+  have f := Mhd.ConnMem.init_fields allocSize poolSize inc ha hs hp
+  exact run_live inc chunks _ (init_safe allocSize poolSize inc lvl ha hs hp)
+    (fun _ => by
+      show (Mhd.ConnMem.init allocSize poolSize inc).rbOff < (Mhd.ConnMem.init allocSize poolSize inc).rbSize
+      rw [f.2.1, f.2.2.2.2.1]; omega)
+
+open Mhd.ConnRead in
+/-- **(2b) one arena.**  In every state of every run the buffer the parser state carries
+    (request line, header section, finished header section) is exactly the arena prefix
+    `mem[0, read_buffer + read_buffer_offset)`, and the arena has the size of the pool: the
+    parsers of C02 and the buffer layer really work on the same bytes. -/
+theorem connread_one_arena (allocSize poolSize inc : Nat) (lvl : Int) (ha : allocSize % A = 0)
+    (hs : allocSize < 2 ^ 62) (hp : poolSize ≤ allocSize) (chunks : List (List UInt8)) :
+    let x := Mhd.ConnRead.run (Mhd.ConnRead.init allocSize poolSize inc lvl) chunks
+    ∀ b, x.phase.buf? = some b → x.cm.p.mem.length = x.cm.p.size ∧ x.cm.p.mem.take b.size = b.toList := by
+  intro x
+  exact run_sync inc chunks _ (init_safe allocSize poolSize inc lvl ha hs hp) (init_sync allocSize poolSize inc lvl)
+
+/-- Non-vacuity of (2b): after `GET / HT` (both separators already NUL-terminated by the parser) the arena starts with these eight bytes. -/
+example :
+    (let x := Mhd.ConnRead.run (Mhd.ConnRead.init 128 128 16 1) [[71, 69, 84, 32], [47, 32, 72, 84]]
+     x.cm.p.mem.take 8 == [71, 69, 84, 0, 47, 0, 72, 84] && x.phase.buf?.isSome) = true := by decide +kernel
+
+/-- Non-vacuity of (1)–(3), a complete head at level 0 on a 1024-byte arena, in three chunks
+    (`GET /a?x=1 HTT`, `P/1.1\r\nHost: h\r\nA: `, `b\r\n\r\nXY`): the run ends in HEADERS_RECEIVED with
+    three elements (one query argument, two field lines), the window moved back by 3 bytes over the
+    header tail, two unread bytes in it.  (`decide +kernel`: the composed model is evaluated by the
+    kernel — a test of the example, not a proof step of any theorem.) -/
+example :
+    (let x := Mhd.ConnRead.run (Mhd.ConnRead.init 1024 1024 64 0)
+        [[71, 69, 84, 32, 47, 97, 63, 120, 61, 49, 32, 72, 84, 84],
+         [80, 47, 49, 46, 49, 13, 10, 72, 111, 115, 116, 58, 32, 104, 13, 10, 65, 58, 32],
+         [98, 13, 10, 13, 10, 88, 89]]
+     match x.phase with
+     | .headersDone h => (h.elems.length, h.shifted, x.cm.rb, x.cm.rbOff) == (3, 3, some 35, 2)
+     | _ => false) = true := by decide +kernel
+
+/-- Non-vacuity of the error outcome: a request line longer than anything the 64-byte arena can
+    hold ends in the error phase `noSpace` (reply + close), not in a stuck state. -/
+example :
+    (let x := Mhd.ConnRead.run (Mhd.ConnRead.init 64 64 16 0) [List.replicate 200 65]
+     match x.phase with
+     | .error .noSpace => true
+     | _ => false) = true := by decide +kernel
+
+/-- **Witness for the guard (3) rests on** (defect F32 in `try_grow_read_buffer`, liveness only): in the variant
+    of the code WITHOUT `if (0 == small_inc) small_inc = 1` (`growSizeG false`), with `pool_increment = 7` on a
+    64-byte arena and a full 32-byte window (32 bytes of the pool still free), the mandatory grow computes a
+    "new" size equal to the old one — `small_inc = 7 / 8 = 0` — and reports success; the connection then waits
+    for data with a full buffer until it times out.  With the guard the new size is 33. -/
+theorem grow_stuck_without_guard :
+    (let c := (step (init 64 64 7) (.recv 32)).1
+     (c.rbOff, c.rbSize, growSizeG false c true, growSizeG true c true)) = (32, 32, some 32, some 33) := by decide +kernel
+
+/-- the same 32 bytes through the composed model of the code as it is: the window grows, the connection keeps
+    reading with one free byte -/
+example :
+    (let x := Mhd.ConnRead.run (Mhd.ConnRead.init 64 64 7 0) [List.replicate 32 65]
+     (x.reading, x.cm.rbOff, x.cm.rbSize)) = (true, 32, 33) := by decide +kernel
 
 end Mhd.C01
